@@ -3,6 +3,7 @@ package protoprint
 import (
 	"fmt"
 	"slices"
+	"strconv"
 	"strings"
 
 	"github.com/pentops/j5/internal/j5s/protoprint/optionreflect"
@@ -114,6 +115,18 @@ func (fb *fileBuilder) optionsFor(thing protoreflect.Descriptor) ([]parsedOption
 		parsed = append(parsed, parseOption(opt))
 	}
 
+	if field, ok := thing.(protoreflect.FieldDescriptor); ok && !field.IsExtension() {
+		// a JSON name that protoc would not derive from the field name has to be
+		// written down, or parsing the text gives the field a different JSON name
+		if jsonName := field.JSONName(); jsonName != "" && jsonName != defaultJSONName(string(field.Name())) {
+			parsed = append(parsed, parsedOption{
+				inline:        true,
+				inlineString:  proto.String(strconv.Quote(jsonName)),
+				qualifiedName: "json_name",
+			})
+		}
+	}
+
 	slices.SortFunc(parsed, func(i, j parsedOption) int {
 		if i.qualifiedName < j.qualifiedName {
 			return -1
@@ -125,6 +138,29 @@ func (fb *fileBuilder) optionsFor(thing protoreflect.Descriptor) ([]parsedOption
 	})
 
 	return parsed, nil
+}
+
+// defaultJSONName is protoc's lowerCamelCase rule for a field without an
+// explicit json_name: underscores are dropped and the next letter upper-cased.
+func defaultJSONName(name string) string {
+	out := make([]byte, 0, len(name))
+	upperNext := false
+	for i := 0; i < len(name); i++ {
+		c := name[i]
+		switch {
+		case c == '_':
+			upperNext = true
+		case upperNext:
+			if c >= 'a' && c <= 'z' {
+				c -= 'a' - 'A'
+			}
+			out = append(out, c)
+			upperNext = false
+		default:
+			out = append(out, c)
+		}
+	}
+	return string(out)
 }
 
 func (extInd *fileBuilder) printOption(opt *optionreflect.OptionDefinition) {
